@@ -2,7 +2,7 @@ use crate::{
     ast::{AstInfo, AstInfoTraverser, Reference},
     error::{ErrorMessage, ParseErrorMessage, ParserError, ParserErrorKind},
     parser::{IResult, Parser},
-    tokens::{Token, TokenChange, TokenStream},
+    tokens::{Token, TokenChange, TokenStream, TokenType},
     Shiftable, ToRange,
 };
 use nom::{
@@ -10,7 +10,7 @@ use nom::{
     combinator::map,
     multi::many0,
     sequence::preceded,
-    {InputTake, Offset},
+    {InputLength, InputTake, Offset},
 };
 use std::ops::Range;
 
@@ -337,7 +337,18 @@ where
                 return affected_error(input);
             }
             // TODO: maybe dynamic affection range
-            let affected_range = this_range.start..(this_range.end + 1);
+            let mut affected_range = this_range.start..(this_range.end + 1);
+            if input.location_offset() == this_range.start {
+                // Every token parser skips comments,
+                // so the look ahead of this node reaches over all comments that follow it.
+                let mut next = this_range.len();
+                while next < input.input_len()
+                    && matches!(input[next].token_type, TokenType::Comment(_))
+                {
+                    next += 1;
+                    affected_range.end += 1;
+                }
+            }
             // The range of a node is relative to its enclosing reference.
             // If tokens were inserted or removed in front of this node, inside the same reference,
             // the old range is stale and the node cannot be reused as it is.
